@@ -214,6 +214,73 @@ pub fn run<D: Dec>(prop: &str, rep: &mut Report) {
             }
         }
         rep.count("three_byte_streams_from_fresh", n);
+
+        // all 2^32 four-byte streams: decoder and model are walked over the 3-byte prefix once, then the
+        // decoder is cloned (hook) for each of the 256 fourth bytes
+        let prop_s = prop.to_string();
+        let shards = par_map(threads, move |t| {
+            let r = ref_for(set);
+            let mut out = ShardOut::default();
+            let mut b0 = t;
+            while b0 < 256 {
+                for b1 in 0..=255u8 {
+                    for b2 in 0..=255u8 {
+                        let pre = [b0 as u8, b1, b2];
+                        let mut d = D::fresh();
+                        let mut ctx = Ctx2::default();
+                        let mut ok = true;
+                        for b in pre.iter() {
+                            let want = ref_step(set, &r, &mut ctx, *b);
+                            match guarded(|| d.advance_state(*b)) {
+                                Ok(g) if want.accepts(&g) => {}
+                                _ => {
+                                    ok = false; // already reported by the three-byte sweep
+                                    break;
+                                }
+                            }
+                        }
+                        if !ok {
+                            continue;
+                        }
+                        for b3 in 0..=255u8 {
+                            let mut dd = d.clone();
+                            let mut c2 = ctx;
+                            let want = ref_step(set, &r, &mut c2, b3);
+                            out.bytes += 1;
+                            let g = guarded(|| dd.advance_state(b3));
+                            let bad = match &g {
+                                Ok(g) => !want.accepts(g),
+                                Err(_) => true,
+                            };
+                            if bad && out.violations.len() < 2000 {
+                                let gs = match &g {
+                                    Ok(g) => res_str(g),
+                                    Err(p) => format!("PANIC({})", panic_sig(p)),
+                                };
+                                let hist = [pre[0], pre[1], pre[2], b3];
+                                out.violations.push((
+                                    sig(&prop_s, set, &ctx, b3, &want, &gs),
+                                    format!("{} stream [{}] from a fresh decoder: reference says {}, decoder returned {}", set_name(set), hex_bytes(&hist), want.show(), gs),
+                                    replay_bytes(set, &hist, &want, &gs, "advance_state"),
+                                ));
+                            }
+                        }
+                        out.histories += 256;
+                    }
+                }
+                b0 += threads;
+            }
+            out
+        });
+        let mut n4 = 0;
+        for s in shards {
+            n4 += s.histories;
+            rep.evaluations += s.bytes;
+            for (sg, what, rp) in s.violations {
+                rep.violate(sg, what, rp);
+            }
+        }
+        rep.count("four_byte_streams_from_fresh", n4);
     }
 
     rep.distinct_nontrivial = seen_pairs.len() as u64;
